@@ -237,3 +237,239 @@ def numeric_monitor(api, rng, budget, variants):
 
 
 PROPS['C09']['monitor'] = numeric_monitor
+
+
+# ----------------------------------------------------------------------------- C17 / C03: getters
+def _bit(b, i):
+    return (b >> i) & 1
+
+
+def _s8(b):
+    return b - 256 if b >= 128 else b
+
+
+def sext12(lsb, msb):
+    v = lsb + 256 * (msb & 15)
+    return v - 4096 if v >= 2048 else v
+
+
+# datasheet: getter -> (address, burst length, {accessor or '' : function of the bytes read})
+GETTER_SPEC = {
+    'get_id': (0x00, 1, {'': lambda b, regs: b[0]}),
+    'get_cmd_error': (0x02, 1, {'': lambda b, regs: _bit(b[0], 1)}),
+    'get_status': (0x03, 1, {'drdy_stat': lambda b, regs: _bit(b[0], 7), 'cmd_rdy': lambda b, regs: _bit(b[0], 4),
+                              'power_mode': lambda b, regs: ['Sleep', 'LowPower', 'Normal', 'Normal'][(b[0] >> 1) & 3],
+                              'int_active': lambda b, regs: _bit(b[0], 0)}),
+    'get_sensor_clock': (0x0A, 3, {'': lambda b, regs: b[0] + 256 * b[1] + 65536 * b[2]}),
+    'get_reset_status': (0x0D, 1, {'': lambda b, regs: _bit(b[0], 0)}),
+    'get_int_status0': (0x0E, 1, dict([(n, (lambda i: lambda b, regs: _bit(b[0], i))(i)) for n, i in
+                                       [('drdy_stat', 7), ('fwm_stat', 6), ('ffull_stat', 5), ('ieng_overrun_stat', 4), ('gen2_stat', 3),
+                                        ('gen1_stat', 2), ('orientch_stat', 1), ('wkup_stat', 0)]])),
+    'get_int_status1': (0x0F, 1, {'ieng_overrun_stat': lambda b, regs: _bit(b[0], 4), 'd_tap_stat': lambda b, regs: _bit(b[0], 3),
+                                   's_tap_stat': lambda b, regs: _bit(b[0], 2),
+                                   'step_int_stat': lambda b, regs: ['None', 'OneStepDetect', 'ManyStepDetect', 'ManyStepDetect'][b[0] & 3]}),
+    'get_int_status2': (0x10, 1, {'ieng_overrun_stat': lambda b, regs: _bit(b[0], 4), 'actch_z_stat': lambda b, regs: _bit(b[0], 2),
+                                   'actch_y_stat': lambda b, regs: _bit(b[0], 1), 'actch_x_stat': lambda b, regs: _bit(b[0], 0)}),
+    'get_raw_temp': (0x11, 1, {'': lambda b, regs: _s8(b[0]) + 100000}),
+    'get_temp_celsius': (0x11, 1, {'': lambda b, regs: _s8(b[0]) + 46 + 100000}),
+    'get_fifo_len': (0x12, 2, {'': lambda b, regs: (b[0] + 256 * b[1]) & 0x7FF}),
+    'get_step_count': (0x15, 3, {'': lambda b, regs: b[0] + 256 * b[1] + 65536 * b[2]}),
+    'get_step_activity': (0x18, 1, {'': lambda b, regs: ['Still', 'Walk', 'Run', 'Run'][b[0] & 3]}),
+    'get_unscaled_data': (0x04, 6, {'xyz': lambda b, regs: [sext12(b[0], b[1]) + 100000, sext12(b[2], b[3]) + 100000, sext12(b[4], b[5]) + 100000]}),
+    'get_data': (0x04, 6, {'xyz': lambda b, regs: [(1 << (regs[0x1A] >> 6)) * sext12(b[2 * i], b[2 * i + 1]) + 100000 for i in range(3)]}),
+}
+
+
+def expected_getter_payload(api, method, regs, prog=None):
+    """regs: the register file before the call (list of 128)"""
+    addr, n, fns = GETTER_SPEC[method]
+    b = regs[addr:addr + n]
+    if addr == 4 and prog is not None and regs[0x7D] in (7, 15):
+        b = list(prog.pos if regs[0x7D] == 7 else prog.neg)     # the simulated chip answers to the self-test excitation
+    if 'xyz' in fns:
+        return addr, n, fns['xyz'](b, regs)
+    shape = api.plain_ret.get(method) if hasattr(api, 'plain_ret') else None
+    if shape and shape['accessors']:
+        out = []
+        for acc, ty in shape['accessors']:
+            if acc not in fns:
+                return addr, n, None     # an accessor the datasheet table does not know
+            v = fns[acc](b, regs)
+            if isinstance(v, str):
+                v = [nm for nm, _p in api.enums[ty]].index(v)
+            out.append(v)
+        return addr, n, out
+    v = fns[''](b, regs)
+    if isinstance(v, str):
+        ty = shape['type'] if shape else None
+        v = [nm for nm, _p in api.enums[ty]].index(v)
+    return addr, n, [v]
+
+
+def check_getter_call(api, r, prog=None):
+    """r: CallRec of a getter call without faults"""
+    method = r.call.op
+    if method not in GETTER_SPEC:
+        return None
+    if r.status != 'ok':
+        return '%s returned %s' % (method, r.result_str())
+    addr, n, want = expected_getter_payload(api, method, r.regs_before if r.regs_before else r.regs, prog)
+    ev = implrun.reg_events(r.raw)
+    if ev != [('r', addr, n)]:
+        return '%s issued %r, datasheet says one read of %d byte(s) from 0x%02X' % (method, ev, n, addr)
+    if want is None:
+        return '%s: result shape unknown to the datasheet table' % method
+    if list(r.payload) != list(want):
+        return '%s decoded %r from %r, datasheet decode is %r' % (method, list(r.payload), (r.regs_before or r.regs)[addr:addr + n], want)
+    return None
+
+
+def getter_programs(api, rng, n, methods=None, exhaustive_byte=False):
+    """programs that preload the read-only registers and call getters.  With exhaustive_byte every value 0..255 is
+    placed in every read-only register (one program per value)."""
+    methods = methods or [m for m in (api.plain + ['get_temp_celsius']) if m in GETTER_SPEC]
+    out = []
+    for k in range(n):
+        if exhaustive_byte and k < 256:
+            ro = bytearray([k] * 25)
+            if k % 2:
+                for i in range(25):
+                    ro[i] = (k + 37 * i) & 0xFF if i not in (2, 3, 0x0D, 0x0E, 0x0F, 0x10, 0x11, 0x18) else k
+        else:
+            ro = bytearray(rng.getrandbits(8) for _ in range(25))
+            if rng.random() < 0.3:
+                ro[0x13] = rng.choice([0, 7, 8, 0xF8, 0xFF])
+        ro[0] = 0x90
+        calls = []
+        if rng.random() < 0.8:
+            calls.append(Call('config_accel', setters=[('with_scale', [rng.choice(['Range2G', 'Range4G', 'Range8G', 'Range16G'])])]))
+        ms = list(methods)
+        rng.shuffle(ms)
+        calls += [Call(m) for m in ms]
+        out.append(Prog('g%d' % k, rng.choice(['i2c', 'spi']), calls, ro))
+    return out
+
+
+def getter_monitor(pid, methods_filter=None):
+    def mon(api, rng, budget, variants):
+        methods = [m for m in (api.plain + ['get_temp_celsius']) if m in GETTER_SPEC and (methods_filter is None or m in methods_filter)]
+        programs = getter_programs(api, rng, max(256, budget // max(1, len(methods))), methods, exhaustive_byte=True)
+        recs = run_monitor_programs(programs)
+        viol, cases = [], 0
+        for p in programs:
+            for r in recs[p.id][1:]:
+                if r.call.op in GETTER_SPEC:
+                    cases += 1
+                    msg = check_getter_call(api, r, p)
+                    if msg:
+                        viol.append(violation(pid, p, msg))
+                        break
+        return {'cases': cases, 'violations': viol[:20], 'samples': [p.describe() for p in programs[:1]],
+                'notes': ['all 256 values of every single-byte read-only register; random multi-byte contents; expected decode from the '
+                          'datasheet bit positions written in tools/propdefs.py; exactly one read of the datasheet (address, length)']}
+    return mon
+
+
+def judge_getters(prog, recs):
+    api = P.Api()
+    api.plain_ret = json.load(open(os.path.join(P.VERIF, 'build/api.json')))['plain_ret']
+    for r in recs[1:]:
+        if r.call.op in GETTER_SPEC and not r.call.faults:
+            msg = check_getter_call(api, r, prog)
+            if msg:
+                return msg
+    return None
+
+
+C17_THEOREMS = ['c17_status', 'c17_int_status0', 'c17_int_status1', 'c17_int_status2', 'c17_cmd_error', 'c17_reset_status', 'c17_chip_id',
+                'c17_step_activity', 'c17_fifo_len', 'c17_sensor_clock', 'c17_step_count', 'c17_raw_temp', 'c17_temp_celsius_model']
+C17_METHODS = ['get_id', 'get_cmd_error', 'get_status', 'get_sensor_clock', 'get_reset_status', 'get_int_status0', 'get_int_status1',
+               'get_int_status2', 'get_raw_temp', 'get_temp_celsius', 'get_fifo_len', 'get_step_count', 'get_step_activity']
+
+PROPS['C17'] = {
+    'targets': ['props/C17.vo'],
+    'theorems': [('props.C17', n) for n in C17_THEOREMS],
+    'corr_gen': lambda api, rng, n: getter_programs(api, rng, n, [m for m in C17_METHODS if m in api.plain + ['get_temp_celsius']], exhaustive_byte=True),
+    'corr_n': (256, 2048),
+    'monitor': getter_monitor('C17', C17_METHODS),
+    'monitor_n': (3400, 40000),
+    'judge': judge_getters,
+    'statement': 'each status / interrupt-status / counter getter of the model is, by conversion, a single burst read of the datasheet '
+                 '(address, length) followed by a pure decode, and the decode equals the datasheet bit positions / fields for all 256 byte '
+                 'values (65,536 for the FIFO length; 24-bit counters by linear arithmetic); reserved code 3 of the 2-bit fields shares the '
+                 'last variant; raw temperature is the signed byte',
+    'rule': 'correspondence: one program per byte value 0..255 placed in every read-only register (exhaustive per single-byte getter, '
+            'including the f32 Celsius line, which is hand-modelled as 2T = raw + 46) plus random contents',
+    'assumptions': ['get_temp_celsius: the f32 arithmetic is not translated; the model states 2*T = raw + 46 and the 256 results are compared '
+                    'with the real f32 computation by the correspondence check on every run'],
+}
+
+PROPS['C03'] = {
+    'targets': ['props/C03.vo'],
+    'theorems': [('props.C03', n) for n in ['c03_sample', 'c03_sample_range', 'c03_unscaled', 'c03_scaled', 'c03_default_range']],
+    'corr_gen': lambda api, rng, n: data_programs(api, rng, n),
+    'corr_n': (300, 4000),
+    'monitor': None,
+    'monitor_n': (1500, 66000),
+    'judge': judge_getters,
+    'statement': 'Measurement::to_i16 equals the 12-bit sign extension of (lsb, low nibble of msb) on all 65,536 byte pairs; '
+                 'get_unscaled_data / get_data are one 6-byte burst read from 0x04 followed by a panic-free decode that returns the '
+                 'sign-extended samples times 2^(bits 7:6 of the shadow ACC_CONFIG1) for all data bytes and ranges; the reset value selects 4 g',
+    'rule': 'monitor: byte pairs at the sign / nibble boundaries and random pairs on every axis x 4 ranges, after histories with rejected '
+            'and bus-failed range changes, self-tests and soft resets',
+}
+
+
+def data_programs(api, rng, n, thorough=False):
+    out = []
+    edge = [0x00, 0x01, 0x07, 0x08, 0x0F, 0x10, 0x7F, 0x80, 0xF0, 0xF7, 0xF8, 0xFF, 0xA0, 0x5F]
+    for k in range(n):
+        ro = bytearray(rng.getrandbits(8) for _ in range(25))
+        ro[0] = 0x90
+        for i in (5, 7, 9):
+            if rng.random() < 0.7:
+                ro[i] = rng.choice(edge)
+        for i in (4, 6, 8):
+            if rng.random() < 0.5:
+                ro[i] = rng.choice([0, 1, 0xFF, 0x80, 0x7F])
+        calls = []
+        for _ in range(rng.randint(0, 4)):
+            kind = rng.random()
+            if kind < 0.45:
+                calls.append(Call('config_accel', setters=[('with_scale', [rng.choice(['Range2G', 'Range4G', 'Range8G', 'Range16G'])])],
+                                  faults=[rng.randint(0, 2)] if rng.random() < 0.25 else []))
+            elif kind < 0.6:
+                # a request that is rejected (tap needs 200 Hz / generic on filter 1 needs 100 Hz)
+                calls.append(Call('config_interrupts', setters=[('with_d_tap_int', [True])]))
+                calls.append(Call('config_accel', setters=[('with_odr', ['Hz50']), ('with_scale', ['Range16G'])]))
+            elif kind < 0.75:
+                calls.append(Call('perform_self_test', faults=[rng.randint(0, 18)] if rng.random() < 0.5 else []))
+            elif kind < 0.85:
+                calls.append(Call('soft_reset', faults=[rng.randint(0, 1)] if rng.random() < 0.3 else []))
+            else:
+                calls.append(Call(rng.choice(['get_data', 'get_unscaled_data'])))
+        calls += [Call('get_data'), Call('get_unscaled_data')]
+        pos, neg = P.selftest_bytes(rng, rng.random() < 0.5)
+        # injected faults are bus faults: over SPI an index may hit a chip-select pin call, which is outside this property
+        ctor = 'i2c' if any(c.faults for c in calls) else rng.choice(['i2c', 'spi'])
+        out.append(Prog('d%d' % k, ctor, calls, ro, pos=pos, neg=neg))
+    return out
+
+
+def data_monitor(api, rng, budget, variants):
+    programs = data_programs(api, rng, budget)
+    recs = run_monitor_programs(programs)
+    viol, cases = [], 0
+    for p in programs:
+        for r in recs[p.id][1:]:
+            if r.call.op in ('get_data', 'get_unscaled_data') and not r.call.faults:
+                cases += 1
+                msg = check_getter_call(api, r, p)
+                if msg:
+                    viol.append(violation('C03', p, msg))
+                    break
+    return {'cases': cases, 'violations': viol[:20], 'samples': [p.describe() for p in programs[:2]],
+            'notes': ['range factor judged against bits 7:6 of the simulated chip register 0x1A (the device, not the shadow)']}
+
+
+PROPS['C03']['monitor'] = data_monitor
